@@ -701,8 +701,20 @@ fn reparse_check(ctx: &Ctx, who: &str, qi: usize, r: &Relation, text: &str, c2: 
         let tabs: Vec<&TableSpec> = ctx.wl.sc.tables.iter().chain(ctx.wl.sc.synthetic.iter()).collect();
         let plan = DrawPlan::neutral(1).with_cap(DrawMode::Inc).with_row_id(DrawMode::Inc);
         if let Ok(mut eng) = Engine::new(&tabs) {
-            let a = eng.query(&render_sim(r), &plan);
-            let b = eng.query(&render_sim(r2), &plan);
+            // the engine's clock is the simulator's: one fixed instant for both executions
+            let frozen = |t: String| -> String {
+                if std::env::var("VERIF_DEBUG_CLOCK").is_ok() && t.contains("CURRENT_") {
+                    eprintln!("CLOCK {}", t);
+                }
+                t.replace("CURRENT_TIMESTAMP()", "'2026-09-25 12:00:00'")
+                    .replace("CURRENT_TIMESTAMP", "'2026-09-25 12:00:00'")
+                    .replace("CURRENT_DATE()", "'2026-09-25'")
+                    .replace("CURRENT_DATE", "'2026-09-25'")
+                    .replace("CURRENT_TIME()", "'12:00:00'")
+                    .replace("CURRENT_TIME", "'12:00:00'")
+            };
+            let a = eng.query(&frozen(render_sim(r)), &plan);
+            let b = eng.query(&frozen(render_sim(r2)), &plan);
             match (a, b) {
                 (Ok((ra, _)), Ok((rb, _))) => {
                     // multiset equality with a floating-point tolerance (aggregates are summed in
